@@ -243,6 +243,39 @@ func bigGeom(shape string, n int, base uint64) orb.Geometry {
 			g = c
 		}
 		return g
+	case "NESTM":
+		// n collection levels around one point, members of every kind before / after the inner
+		// collection on the way down (mirrored by Driver.C01.bigGeom.nestM)
+		mixed := func(k int) orb.Geometry {
+			switch k % 7 {
+			case 0:
+				return pt(k)
+			case 1:
+				return orb.LineString(pts(k, 2))
+			case 2:
+				return orb.Polygon{pts(k, 3)}
+			case 3:
+				return orb.MultiPoint(pts(k, 2))
+			case 4:
+				return orb.Collection{}
+			case 5:
+				return orb.MultiPolygon{{pts(k, 1)}}
+			}
+			return orb.MultiLineString{pts(k, 1), pts(k+1, 0)}
+		}
+		var g orb.Geometry = pt(0)
+		for k := 1; k <= n; k++ {
+			c := orb.Collection{}
+			if k%3 == 1 {
+				c = append(c, mixed(k))
+			}
+			c = append(c, g)
+			if k%2 == 0 {
+				c = append(c, mixed(k+1))
+			}
+			g = c
+		}
+		return g
 	}
 	panic("bad big shape " + shape)
 }
@@ -320,10 +353,12 @@ func runC01(op string, in []string) string {
 			g2, s2, err := ewkb.Unmarshal(append([]byte(nil), data...))
 			return wkbOutcome(g2, s2, err)
 		})
-		st := guard(func() string {
-			g2, s2, err := ewkb.NewDecoder(bytes.NewReader(data)).Decode()
-			return wkbOutcome(g2, s2, err)
-		})
+		dec := func(rd io.Reader) []decOut { return decodeAll(rd, 1) }
+		plain, stPanic := guardOuts(func() []decOut { return dec(bytes.NewReader(data)) })
+		st := "panic"
+		if !stPanic {
+			st = showOuts(plain)
+		}
 		// every other exported EWKB encoder entry point must write the same bytes
 		vs := map[string]func() ([]byte, error){
 			"MustMarshal": func() ([]byte, error) { return ewkb.MustMarshal(g, srid, o), nil },
@@ -356,7 +391,19 @@ func runC01(op string, in []string) string {
 				return buf.Bytes(), err
 			}
 		}
-		return hexs + " ; " + um + " ; " + st + " ; " + apiAgree(data, vs)
+		// … whatever kind of writer the encoder was given
+		addWriterVariants(vs, data, "EncoderSetSRID", func(w io.Writer) error {
+			return ewkb.NewEncoder(w).SetByteOrder(o).SetSRID(srid).Encode(g)
+		})
+		addWriterVariants(vs, data, "EncoderArgSRID", func(w io.Writer) error {
+			return ewkb.NewEncoder(w).SetByteOrder(o).Encode(g, srid)
+		})
+		// and the stream decoder must not depend on how the reader fragments the bytes
+		fr := "same"
+		if !stPanic {
+			fr = fragAgreeG(plain, data, dec, false)
+		}
+		return hexs + " ; " + um + " ; " + st + " ; " + apiAgree(data, vs) + " ; " + fr
 	case "wrt":
 		// the wkb package: Marshal with a byte order (+ every other encoder entry point), Unmarshal, NewDecoder
 		o := order(r.next())
@@ -382,7 +429,15 @@ func runC01(op string, in []string) string {
 			return "ok 0 " + gs(g2)
 		}
 		um := guard(func() string { return wo(wkb.Unmarshal(append([]byte(nil), data...))) })
-		st := guard(func() string { return wo(wkb.NewDecoder(bytes.NewReader(data)).Decode()) })
+		dec := func(rd io.Reader) []decOut {
+			g2, err := wkb.NewDecoder(rd).Decode()
+			return []decOut{{g2, 0, err}}
+		}
+		plain, stPanic := guardOuts(func() []decOut { return dec(bytes.NewReader(data)) })
+		st := "panic"
+		if !stPanic {
+			st = wo(plain[0].g, plain[0].err)
+		}
 		vs := map[string]func() ([]byte, error){
 			"MustMarshal": func() ([]byte, error) { return wkb.MustMarshal(g, o), nil },
 			"MarshalToHex": func() ([]byte, error) {
@@ -403,7 +458,14 @@ func runC01(op string, in []string) string {
 		if o == binary.LittleEndian {
 			vs["MarshalDefaultOrder"] = func() ([]byte, error) { return wkb.Marshal(g) }
 		}
-		return hexs + " ; " + um + " ; " + st + " ; " + apiAgree(data, vs)
+		addWriterVariants(vs, data, "Encoder", func(w io.Writer) error {
+			return wkb.NewEncoder(w).SetByteOrder(o).Encode(g)
+		})
+		fr := "same"
+		if !stPanic {
+			fr = fragAgreeG(plain, data, dec, false)
+		}
+		return hexs + " ; " + um + " ; " + st + " ; " + apiAgree(data, vs) + " ; " + fr
 	case "val":
 		// driver.Valuer of each package, read back by the matching scanner:
 		//   w: wkb.Value / wkb.Scanner   e: ewkb.Value / ewkb.Scanner   p: ewkb.ValuePrefixSRID / ewkb.ScannerPrefixSRID
@@ -485,7 +547,22 @@ func runC01(op string, in []string) string {
 			}
 			out := []string{fmt.Sprintf("%d %s", len(data), fnvHex(hex.EncodeToString(data)))}
 			out = append(out, guard(func() string { return wkbDigest(ewkb.Unmarshal(append([]byte(nil), data...))) }))
-			out = append(out, guard(func() string { return wkbDigest(ewkb.NewDecoder(bytes.NewReader(data)).Decode()) }))
+			var plainG orb.Geometry
+			var plainSrid int
+			var plainErr error
+			st := guard(func() string {
+				plainG, plainSrid, plainErr = ewkb.NewDecoder(bytes.NewReader(data)).Decode()
+				return wkbDigest(plainG, plainSrid, plainErr)
+			})
+			// through the other readers: the digest is printed only when the value is not the one above
+			dec := func(rd io.Reader) string {
+				g2, s2, err := ewkb.NewDecoder(rd).Decode()
+				if plainErr == nil && err == nil && s2 == plainSrid && sameBits(g2, plainG) {
+					return st
+				}
+				return wkbDigest(g2, s2, err)
+			}
+			out = append(out, st)
 			for _, d := range c01Dests {
 				out = append(out, guard(func() string {
 					dest, read := newDest(d)
@@ -502,6 +579,15 @@ func runC01(op string, in []string) string {
 					return wkbDigest(s.Geometry, s.SRID, nil)
 				}))
 			}
+			// the encoder into writers that are not a *bytes.Buffer, the decoder from fragmenting readers
+			wvs := map[string]func() ([]byte, error){}
+			for _, k := range []string{"only", "bufio4k", "pipe"} {
+				k := k
+				wvs["Encoder/"+k] = func() ([]byte, error) {
+					return encVia(k, data, func(w io.Writer) error { return ewkb.NewEncoder(w).SetByteOrder(o).Encode(g, srid) })
+				}
+			}
+			out = append(out, "wr "+apiAgree(data, wvs), "fr "+fragAgree(st, data, dec))
 			return strings.Join(out, " ; ")
 		})
 	case "scq":
@@ -570,40 +656,50 @@ func runC01(op string, in []string) string {
 		})
 	case "seq":
 		// one Encoder reused for several Encode calls with changing byte order / SRID (via SetSRID or
-		// the per-call argument), then one Decoder reading the values back from the stream
+		// the per-call argument), then one Decoder reading the values back from the stream; the same again
+		// with the encoder on other kinds of writers and the decoder on fragmenting readers
 		return guard(func() string {
 			n := r.int()
-			var buf bytes.Buffer
-			enc := ewkb.NewEncoder(&buf)
-			want := 0
-			for i := 0; i < n; i++ {
-				o := order(r.next())
-				srid := r.int()
-				how := r.next()
-				g := r.geom()
-				enc.SetByteOrder(o)
-				var err error
-				if how == "set" {
-					enc.SetSRID(srid)
-					err = enc.Encode(g)
-				} else {
-					err = enc.Encode(g, srid)
-				}
-				if err != nil {
-					return "err encode"
-				}
-				want++
+			type item struct {
+				o    binary.ByteOrder
+				srid int
+				how  string
+				g    orb.Geometry
 			}
+			items := make([]item, n)
+			for i := range items {
+				items[i] = item{order(r.next()), r.int(), r.next(), r.geom()}
+			}
+			encAll := func(w io.Writer) error {
+				enc := ewkb.NewEncoder(w)
+				for _, it := range items {
+					enc.SetByteOrder(it.o)
+					var err error
+					if it.how == "set" {
+						enc.SetSRID(it.srid)
+						err = enc.Encode(it.g)
+					} else {
+						err = enc.Encode(it.g, it.srid)
+					}
+					if err != nil {
+						return err
+					}
+				}
+				return nil
+			}
+			var buf bytes.Buffer
+			if err := encAll(&buf); err != nil {
+				return "err encode"
+			}
+			want := n
 			data := buf.Bytes()
 			out := []string{hexOrEmpty(data)}
-			dec := ewkb.NewDecoder(bytes.NewReader(data))
-			for i := 0; i < want+1; i++ {
-				g2, s2, err := dec.Decode()
-				out = append(out, wkbOutcome(g2, s2, err))
-				if err != nil {
-					break
-				}
-			}
+			decAll := func(rd io.Reader) []decOut { return decodeAll(rd, want+1) }
+			plain := decAll(bytes.NewReader(data))
+			out = append(out, showOuts(plain))
+			wvs := map[string]func() ([]byte, error){}
+			addWriterVariants(wvs, data, "Encoder", encAll)
+			out = append(out, "wr "+apiAgree(data, wvs), "fr "+fragAgreeG(plain, data, decAll, false))
 			return strings.Join(out, " ; ")
 		})
 	case "sc":
@@ -675,6 +771,8 @@ func runC01(op string, in []string) string {
 			}
 			return res
 		})
+	case "bo", "trunc", "zread":
+		return runC01wb(op, r)
 	}
 	return "badop"
 }
@@ -904,6 +1002,7 @@ func genC01(c *Ctx) {
 			}
 		}
 	}
+	genC01wb(c, mine, bigCase)
 	// two-row scanner reuse: a row with an SRID, then one without (and NULL rows)
 	p12 := "P 3ff0000000000000 4000000000000000"
 	for _, w := range []string{"e", "p", "w"} {
@@ -969,6 +1068,7 @@ func genC01(c *Ctx) {
 			dtok = fmt.Sprintf("%s:%d:%d", d, r.Intn(2), genSrid(c))
 		}
 		c.Case("wsc", fmt.Sprintf("%s %s %d %s", dtok, fr2, ps, gsN(g2)))
+		genC01wbRandom(c, k, opt, bigCase)
 		if c.Tier == "thorough" && k%4000 == 2017 { // random nesting depths, most of them around the limit
 			n := 1 + r.Intn(300)
 			if r.Intn(3) != 0 {
